@@ -1,5 +1,6 @@
 import Mathlib.Algebra.BigOperators.Finprod
 import Mathlib.Algebra.FiniteSupport.Basic
+import Mathlib.Algebra.BigOperators.Group.List.Basic
 import EpgVerif.Model.ND
 import EpgVerif.Props.C08
 /-
@@ -403,6 +404,70 @@ theorem wfn_init (pd : ℝ) : WFN (NDS.init (0 : κ) (pd : ℂ)) := by
     · have : -k ≠ 0 := by simpa using hk
       simp [hk, this]
 
+
+theorem nodup_addKey (acc : List κ) (a : κ) (h : acc.Nodup) : (addKey acc a).Nodup := by
+  unfold addKey
+  by_cases ha : a ∈ acc
+  · simp [ha, h]
+  · simp only [ha, if_false]
+    exact List.Nodup.append h (List.nodup_singleton a) (by
+      intro x hx hx'
+      simp only [List.mem_singleton] at hx'
+      exact ha (hx' ▸ hx))
+
+theorem nodup_foldl_addKey (ks acc : List κ) (h : acc.Nodup) : (ks.foldl addKey acc).Nodup := by
+  induction ks generalizing acc with
+  | nil => exact h
+  | cons a rest ih => exact ih _ (nodup_addKey acc a h)
+
+theorem nodup_uniq (ks : List κ) : (uniq ks).Nodup := nodup_foldl_addKey ks [] List.nodup_nil
+
+/-- entries of a table with distinct coordinates are what `get` reads -/
+theorem get_of_mem_ent (s : NDS κ ℂ) (hn : s.keys.Nodup) (e : κ × PS ℂ) (he : e ∈ s.ent) : s.get e.1 = e.2 := by
+  obtain ⟨ent, pd⟩ := s
+  simp only [NDS.keys] at hn
+  simp only [NDS.get]
+  induction ent with
+  | nil => simp at he
+  | cons a rest ih =>
+    simp only [List.map_cons, List.nodup_cons] at hn
+    simp only [List.find?_cons]
+    rcases List.mem_cons.mp he with rfl | h
+    · simp
+    · have hne : a.1 ≠ e.1 := by
+        intro heq
+        exact hn.1 (heq ▸ List.mem_map_of_mem (f := (·.1)) h)
+      simp only [hne, decide_false]
+      exact ih hn.2 h
+
+theorem finsum_eq_list_sum (s : NDS κ ℂ) (hn : s.keys.Nodup) (g : κ → PS ℂ → ℂ) (hg : ∀ k, g k 0 = 0) :
+    ∑ᶠ k, g k (s.get k) = (s.ent.map (fun e => g e.1 e.2)).sum := by
+  have hsub : Function.support (fun k => g k (s.get k)) ⊆ ↑(s.keys.toFinset) := by
+    intro k hk
+    by_contra hout
+    apply hk
+    have : k ∉ s.keys := by simpa using hout
+    simp [get_of_not_mem s k this, hg]
+  rw [finsum_eq_sum_of_support_subset _ hsub, List.sum_toFinset _ hn]
+  simp only [NDS.keys, List.map_map]
+  congr 1
+  apply List.map_congr_left
+  intro e he
+  simp only [Function.comp, get_of_mem_ent s hn e he]
+
+
+/-- the operators keep the coordinates of a table distinct -/
+theorem nodup_apply (op : NOp κ ℂ) (s : NDS κ ℂ) (hn : s.keys.Nodup) : (s.apply op).keys.Nodup := by
+  cases op with
+  | pt o => simp only [NDS.apply, NDS.point]; rw [keys_ofFun]; exact hn
+  | shift g => simp only [NDS.apply, NDS.shift]; rw [keys_ofFun]; exact nodup_uniq _
+
+theorem nodup_run (ops : List (NOp κ ℂ)) (s : NDS κ ℂ) (hn : s.keys.Nodup) : (s.run ops).keys.Nodup := by
+  induction ops generalizing s with
+  | nil => exact hn
+  | cons op rest ih => simp only [NDS.run, List.foldl_cons] at ih ⊢; exact ih _ (nodup_apply op s hn)
+
+theorem nodup_init (pd : ℂ) : (NDS.init (0 : κ) pd).keys.Nodup := by simp [NDS.init, NDS.keys]
 
 /-! ### instances: positions in space, off-resonance along the time axis -/
 
